@@ -145,6 +145,7 @@ var (
 )
 
 func hookYield(site string, key uint64) {
+	simcore.Progress.Add(1)
 	if hooksOff.Load() {
 		return
 	}
@@ -235,6 +236,7 @@ func runEpisode(sc *Scenario) *Result {
 	sim.Deadline = time.Now().Add(episodeWallLimit())
 	sim.StallAfter = 15 * time.Second
 	sim.SleepBound = 40 * time.Second
+	sim.SpinCPU = 35 * time.Second
 	sim.Stats.RecordChoices = true
 	for s := simcore.Site(0); s < siteCount; s++ {
 		sim.SetSite(s, false, 0)
@@ -483,7 +485,28 @@ func restoreFsize() {
 func (ep *episode) faultPath(j *Job, ext string) (string, error) {
 	base := filepath.Join(ep.dir, fmt.Sprintf("job%d.%s", j.ID, ext))
 	if j.Name != "" {
-		base = filepath.Join(ep.dir, fmt.Sprintf("j%d-", j.ID)+strings.ReplaceAll(j.Name, "EXT", ext))
+		name := strings.ReplaceAll(j.Name, "EXT", ext)
+		switch {
+		case strings.HasPrefix(name, "@dotdot/"):
+			// link<id> -> real<id>/sub ; the path goes link<id>/../<name>, which the
+			// kernel resolves to real<id>/<name> (not to <dir>/<name>, as lexical
+			// cleaning of the path would have it)
+			real := filepath.Join(ep.dir, fmt.Sprintf("real%d", j.ID), "sub")
+			if err := os.MkdirAll(real, 0o755); err != nil {
+				return "", err
+			}
+			link := filepath.Join(ep.dir, fmt.Sprintf("link%d", j.ID))
+			os.Remove(link)
+			if err := os.Symlink(real, link); err != nil {
+				return "", err
+			}
+			base = link + "/../" + strings.TrimPrefix(name, "@dotdot/")
+		case strings.HasPrefix(name, "="):
+			// the same base name as other jobs of the episode (part.stl next to part.3mf)
+			base = filepath.Join(ep.dir, strings.TrimPrefix(name, "="))
+		default:
+			base = filepath.Join(ep.dir, fmt.Sprintf("j%d-", j.ID)+name)
+		}
 	}
 	switch j.Fault.Kind {
 	case "", "fsize", "vanish", "emfile":
@@ -625,7 +648,7 @@ func (ep *episode) prepare(j *Job, jres *JobResult) (*jobRun, error) {
 	switch j.Kind {
 	case "script3":
 		items := genTriangles(j.N, j.Coords, j.CoordSeed)
-		r := &script3{jid: jr.jid, batches: splitBatches(items, j.Batches), closeAt: intSet(j.CloseAt), stall: time.Duration(j.StallMs) * time.Millisecond}
+		r := &script3{jid: jr.jid, batches: splitBatches(items, j.Batches), closeAt: intSet(j.CloseAt), stall: time.Duration(j.StallMs) * time.Millisecond, reuse: j.Reuse, closeTwice: j.CloseTwice}
 		if j.Fault.Kind == "vanish" {
 			r.pre = func() { os.Remove(jr.state.path) }
 		}
@@ -634,7 +657,7 @@ func (ep *episode) prepare(j *Job, jres *JobResult) (*jobRun, error) {
 		return jr, ep.bind3(jr, nil, r, faulty)
 	case "script2":
 		items := genLines(j.N, j.Coords, j.CoordSeed)
-		r := &script2{jid: jr.jid, batches: splitBatches(items, j.Batches), closeAt: intSet(j.CloseAt), stall: time.Duration(j.StallMs) * time.Millisecond}
+		r := &script2{jid: jr.jid, batches: splitBatches(items, j.Batches), closeAt: intSet(j.CloseAt), stall: time.Duration(j.StallMs) * time.Millisecond, reuse: j.Reuse, closeTwice: j.CloseTwice}
 		if j.Fault.Kind == "vanish" {
 			r.pre = func() { os.Remove(jr.state.path) }
 		}
@@ -959,6 +982,13 @@ func (ep *episode) compareBatchSTL(jr *jobRun) {
 			return
 		}
 	}
+	// "a saved STL": when SaveSTL reports success the file is well-formed, whatever the
+	// disk did - a full device, or a file-size limit reached in the header, at a flush
+	// boundary, in the last partial buffer or one byte short of the end
+	if c := ep.saveUnderFault(jr); !c.OK {
+		jr.res.AtReturn = &c
+		return
+	}
 	// the mesh is the caller's to change (scale, move, flip): the file is loaded again
 	// after the first result has been edited in place, and must still give what it holds
 	for _, mesh := range held {
@@ -979,6 +1009,44 @@ func (ep *episode) compareBatchSTL(jr *jobRun) {
 			return
 		}
 	}
+}
+
+func (ep *episode) saveUnderFault(jr *jobRun) Check {
+	if ep.groupSize(jr.job) != 1 {
+		return okCheck // the file-size limit is process-wide: not while another export is running
+	}
+	tris := jr.state.tris
+	size := int64(84 + 50*len(tris))
+	if err := render.SaveSTL("/dev/full", tris); err == nil && size > 0 {
+		return bad("stl-save-fault", "SaveSTL to a full device (%d triangles) reported success", len(tris))
+	}
+	jr.faultsFired = append(jr.faultsFired, "save-devfull")
+	r := simcore.NewRNG(jr.job.CoordSeed ^ 0x73617665)
+	lastBuf := size / 4096 * 4096
+	budgets := []int64{0, 83, 84, size - 1, size - 50, lastBuf, lastBuf + 1, 4096, int64(r.Intn(int(size) + 1))}
+	for k, b := range budgets {
+		if b < 0 || b >= size || (k > 3 && r.Intn(3) != 0) {
+			continue
+		}
+		p := fmt.Sprintf("%s.fault%d.stl", jr.state.path, k)
+		if err := setFsize(b); err != nil {
+			return bad("harness", "setrlimit: %v", err)
+		}
+		err := render.SaveSTL(p, tris)
+		restoreFsize()
+		jr.faultsFired = append(jr.faultsFired, "save-fsize")
+		if err != nil {
+			continue // the failure was reported: nothing is demanded of the file
+		}
+		st := jr.state
+		st.path = p
+		if c := st.check(); !c.OK {
+			c.Class = "stl-save-fault"
+			c.Msg = fmt.Sprintf("SaveSTL reported success under a %d-byte file-size limit (file needs %d bytes), but: %s", b, size, c.Msg)
+			return c
+		}
+	}
+	return okCheck
 }
 
 // loadSomethingElse loads a small binary and a small ASCII STL with other
@@ -1091,7 +1159,7 @@ func (ep *episode) asciiRoundTrip(jr *jobRun) Check {
 	if len(mesh) != len(jr.state.tris) {
 		return bad("stl-ascii-load", "ASCII STL lists %d facets, LoadSTL returned %d", len(jr.state.tris), len(mesh))
 	}
-	ep.loadSomethingElse(jr) // the mesh is compared after other files have been loaded
+	ep.loadSomethingElse(jr)            // the mesh is compared after other files have been loaded
 	listed := func(v float64) float64 { // the value the file lists: its text read by strconv, not by the library
 		x, _ := strconv.ParseFloat(g(v), 64)
 		return x
